@@ -17,10 +17,10 @@ use std::panic::{AssertUnwindSafe, catch_unwind};
 use std::str::FromStr;
 use std::sync::{Arc, Barrier};
 
-pub const VARIANTS: [&str; 19] = [
+pub const VARIANTS: [&str; 20] = [
     "sign", "verify-good", "verify-bad", "encrypt", "decrypt-good", "decrypt-bad", "decrypt-wrong-aad", "unwrap-good", "unwrap-bad",
     "pw-unwrap-wrong-password", "unseal-good", "unseal-bad", "id", "clone-drop", "public-key", "pw-unwrap-good", "pw-unwrap-rejected-params",
-    "verify-zero-signature", "decrypt-zero-body",
+    "verify-zero-signature", "decrypt-zero-body", "verify-good-other",
 ];
 
 /// Progress heartbeat: an operation of the library that does not return is data, not a tool failure.  The watchdog
@@ -70,6 +70,7 @@ struct Material {
     tok_public: String,
     tok_public_bad: String,
     tok_public_zero: String,
+    tok_public_other: String,
     tok_local_zero: String,
     pie: String,
     pie_bad: String,
@@ -121,6 +122,7 @@ fn material<B: Backend>(rng: &mut Prng) -> Material {
         pw_rejected_params,
         tok_local_bad: flip_mid(&tok_local),
         tok_public_bad: flip_mid(&tok_public),
+        tok_public_other: UnsealedToken::<B::V, Public, Raw>::new(Raw(b"another message".to_vec())).seal(&sk, aad).unwrap().to_string(),
         // degenerate tokens: the signature (all of a public token's bytes after the message) and a whole local body of zero bytes
         tok_public_zero: {
             let hdr = crate::drive_tokens::header::<B, Public>();
@@ -182,6 +184,7 @@ fn apply<B: Backend>(v: &str, k: &Keys<B>, m: &Material, check: &Keys<B>) -> (Ou
             let s = if v == "verify-good" { &m.tok_public } else { &m.tok_public_bad };
             (r(SealedToken::<B::V, Public, Raw>::from_str(s).and_then(|t| t.unseal(&k.public, aad, &nv())).map(|u| u.claims.0)), true, true)
         }
+        "verify-good-other" => (r(SealedToken::<B::V, Public, Raw>::from_str(&m.tok_public_other).and_then(|t| t.unseal(&k.public, aad, &nv())).map(|u| u.claims.0)), true, true),
         "verify-zero-signature" => (r(SealedToken::<B::V, Public, Raw>::from_str(&m.tok_public_zero).and_then(|t| t.unseal(&k.public, aad, &nv())).map(|u| u.claims.0)), true, true),
         "decrypt-zero-body" => (r(SealedToken::<B::V, Local, Raw>::from_str(&m.tok_local_zero).and_then(|t| t.unseal(&k.local, aad, &nv())).map(|u| u.claims.0)), true, true),
         "decrypt-good" | "decrypt-bad" | "decrypt-wrong-aad" => {
